@@ -101,10 +101,19 @@ def rule_all_operands(ctx: Ctx) -> None:
     d = Defs(prod)
     sig = ["items", "dims", "exclude", "constants", "derivers"]
     given = {sig[i]: a for i, a in enumerate(call.args)} | {k.arg: k.value for k in call.keywords if k.arg}
+    # `Sweep(items, dims=..., **merged)`: the keywords may come from a mapping built in the function
+    dyn = False
+    for k in [k for k in call.keywords if k.arg is None]:
+        m_ = d.resolve(k.value)
+        if isinstance(m_, ast.Dict) and all(isinstance(kk, ast.Constant) for kk in m_.keys):
+            given |= {kk.value: vv for kk, vv in zip(m_.keys, m_.values)}
+        else:
+            dyn = True
     for attr in sig:
         e = given.get(attr)
         if e is None:
-            ctx.add("1-all-operands", prod, call, False, f"the product does not pass `{attr}`: that attribute of the operands is dropped", key=f"merged {attr}")
+            ctx.add("1-all-operands", prod, call, None if dyn else False, f"UNDECIDED: `{attr}` may be among the keywords splatted into the constructor (`**{norm([k.value for k in call.keywords if k.arg is None][0])[:30]}`)" if dyn else
+                    f"the product does not pass `{attr}`: that attribute of the operands is dropped", key=f"merged {attr}")
             continue
         r = d.resolve(e)
         names = {x.id for x in ast.walk(e) if isinstance(x, ast.Name)} | {x.id for x in ast.walk(r) if isinstance(x, ast.Name)}
